@@ -245,57 +245,120 @@ def _gate_rename(cond):
     return g, ren
 
 
-def unit_gates(inj, scratch):
+def _gates_begin(inj):
     frag_begin(inj)
+
+
+def _visit_dir(scratch):
     s = src('src/searcher.rs', scratch)
     it = s.fn('visit_dir', impl='Searcher')
-    span = s.body_span(it)
-    recs, dropped = [], []
-    # depth formula
+    return s, it, s.body_span(it)
+
+
+def unit_gate_depth(inj, scratch):
+    _gates_begin(inj)
+    s, it, span = _visit_dir(scratch)
     m1 = s.find_one(r'let\s+base_depth\s*=\s*match\s+root_depth', span, what='visit_dir: let base_depth = match root_depth')
     m2 = s.find_one(r'let\s+depth\s*=[^;]*;', span, what='visit_dir: let depth = ...;')
     if not (m1.start() < m2.start()):
         raise AnchorLost('visit_dir: depth statement precedes base_depth')
     t = dedent(s.text[m1.start():m2.end()])
-    between = s.mask[m1.start():m2.end()]
-    if between.count(';') != 2:
+    if s.mask[m1.start():m2.end()].count(';') != 2:
         raise AnchorLost('visit_dir: statements between base_depth and depth changed shape')
-    out = ['pub mod gates {', 'use super::*;',
-           f'pub fn frag_depth(canonical_depth: u32, root_depth: u32) -> (u32, u32) {{\n    {t}\n    (base_depth, depth)\n}}']
-    r, d = frag_record('frag_depth', 'src/searcher.rs', 'fn visit_dir / statements `let base_depth = match root_depth {..};` to `let depth = ..;`',
-                       t, t, [], 'canonicalisation of the path (canonical_path, calc_depth are inputs)')
-    recs.append(r); dropped.append(d)
-    # report gate
-    k = s.find_one(r'let\s+checked\s*=\s*self\.check_file\(&entry,\s*&None\)\?;', span, what='visit_dir: let checked = self.check_file(&entry, &None)?;')
-    cond = enclosing_if_condition(s, k.start(), 'visit_dir report gate')
-    out.append(f'pub fn frag_report_gate(min_depth: u32, depth: u32) -> bool {{ {cond} }}')
-    r, d = frag_record('frag_report_gate', 'src/searcher.rs', 'fn visit_dir / condition of the `if` whose block starts with `let checked = self.check_file(&entry, &None)?;`',
-                       cond, cond, [], 'the body of the gate (check_file, archives)')
-    recs.append(r); dropped.append(d)
-    # descend gate
-    k = s.find_one(r'let\s+result\s*=\s*entry\.file_type\(\);', span, what='visit_dir: let result = entry.file_type();')
-    cond = enclosing_if_condition(s, k.start(), 'visit_dir descend gate')
-    out.append(f'pub fn frag_descend_gate(max_depth: u32, depth: u32) -> bool {{ {cond} }}')
-    r, d = frag_record('frag_descend_gate', 'src/searcher.rs', 'fn visit_dir / condition of the `if` whose block starts with `let result = entry.file_type();`',
-                       cond, cond, [], 'the body of the gate (recursion / queueing)')
-    recs.append(r); dropped.append(d)
-    # early-exit gates
-    cond = _first_stmt_if_break(s, r'for\s+entry\s+in\s+entry_list\s*\{', span, 'visit_dir: for entry in entry_list')
-    g, ren = _gate_rename(cond)
-    out.append(f'pub fn frag_exit_dir(p_buffered: bool, p_limit: u32, p_found: u32) -> bool {{ {g} }}')
-    r, d = frag_record('frag_exit_dir', 'src/searcher.rs', 'fn visit_dir / condition of the `if .. { break; }` that is the first statement of `for entry in entry_list`',
-                       cond, g, ren, 'the loop')
-    recs.append(r); dropped.append(d)
-    cond = _first_stmt_if_break(s, r'for\s+i\s+in\s+0\.\.archive\.len\(\)\s*\{', span, 'visit_dir: for i in 0..archive.len()')
-    g, ren = _gate_rename(cond)
-    out.append(f'pub fn frag_exit_archive(p_buffered: bool, p_limit: u32, p_found: u32) -> bool {{ {g} }}')
-    r, d = frag_record('frag_exit_archive', 'src/searcher.rs', 'fn visit_dir / condition of the `if .. { break; }` that is the first statement of `for i in 0..archive.len()`',
-                       cond, g, ren, 'the loop')
-    recs.append(r); dropped.append(d)
-    out.append(H('frag_gates.kani.rs'))
+    # arguments of every recursive call: self.visit_dir(&path, min_depth, max_depth, base_depth, ...)
+    calls = s.find_all(r'self\.visit_dir\(', span)
+    if not calls:
+        raise AnchorLost('visit_dir: no recursive call found')
+    arg_fns = []
+    for k, cm in enumerate(calls):
+        o = cm.end() - 1
+        c = s.match_close(o)
+        args, depth, cur = [], 0, ''
+        for ch_m, ch_t in zip(s.mask[o + 1:c], s.text[o + 1:c]):
+            if ch_m in '([{':
+                depth += 1
+            elif ch_m in ')]}':
+                depth -= 1
+            if ch_m == ',' and depth == 0:
+                args.append(cur.strip()); cur = ''
+            else:
+                cur += ch_t
+        if cur.strip():
+            args.append(cur.strip())
+        args = [a for a in args if not a.startswith('#[cfg')]
+        if len(args) < 4:
+            raise AnchorLost('visit_dir: recursive call has fewer than 4 arguments')
+        arg_fns.append(f'pub fn frag_rec_args_{k}(min_depth: u32, max_depth: u32, root_depth: u32, base_depth: u32, depth: u32, canonical_depth: u32) -> (u32, u32, u32) {{ ({args[1]}, {args[2]}, {args[3]}) }}')
+    n = len(calls)
+    rec_asserts = '\n'.join(f'    assert!(frag_rec_args_{k}(min, max, root, base, depth, canon) == (min, max, base), "OBL C01.recursion.args: recursive call #{k} passes min_depth, max_depth and base_depth on unchanged");' for k in range(n))
+    out = ['pub mod gate_depth {', 'use super::*;',
+           f'pub fn frag_depth(canonical_depth: u32, root_depth: u32) -> (u32, u32) {{\n    {t}\n    (base_depth, depth)\n}}'] + arg_fns
+    out.append(H('frag_gate_depth.kani.rs').replace('/*REC_ASSERTS*/', rec_asserts))
     out.append('}')
     inj.new_file(FRAG_FILE, '\n'.join(out) + '\n')
-    return dict(functions=recs, dropped=dropped)
+    r, d = frag_record('frag_depth', 'src/searcher.rs', 'fn visit_dir / statements `let base_depth = match root_depth {..};` to `let depth = ..;`',
+                       t, t, [], 'canonicalisation of the path (canonical_path, calc_depth are inputs)')
+    r2, d2 = frag_record(f'frag_rec_args_0..{n - 1}', 'src/searcher.rs', 'fn visit_dir / argument expressions 2-4 (min_depth, max_depth, root_depth position) of every `self.visit_dir(..)` call',
+                         '\n'.join(arg_fns), '\n'.join(arg_fns), [], 'the other arguments and the call itself')
+    return dict(functions=[r, r2], dropped=[d, d2])
+
+
+def unit_gate_report(inj, scratch):
+    _gates_begin(inj)
+    s, it, span = _visit_dir(scratch)
+    k = s.find_one(r'let\s+checked\s*=\s*self\.check_file\(&entry,\s*&None\)\?;', span, what='visit_dir: let checked = self.check_file(&entry, &None)?;')
+    cond = enclosing_if_condition(s, k.start(), 'visit_dir report gate')
+    k2 = s.find_one(r'let\s+result\s*=\s*entry\.file_type\(\);', span, what='visit_dir: let result = entry.file_type();')
+    cond2 = enclosing_if_condition(s, k2.start(), 'visit_dir descend gate')
+    out = ['pub mod gate_window {', 'use super::*;',
+           f'pub fn frag_report_gate(min_depth: u32, depth: u32) -> bool {{ {cond} }}',
+           f'pub fn frag_descend_gate(max_depth: u32, depth: u32) -> bool {{ {cond2} }}',
+           H('frag_gate_window.kani.rs'), '}']
+    inj.new_file(FRAG_FILE, '\n'.join(out) + '\n')
+    r, d = frag_record('frag_report_gate', 'src/searcher.rs', 'fn visit_dir / condition of the `if` whose block starts with `let checked = self.check_file(&entry, &None)?;`',
+                       cond, cond, [], 'the body of the gate (check_file, archives)')
+    r2, d2 = frag_record('frag_descend_gate', 'src/searcher.rs', 'fn visit_dir / condition of the `if` whose block starts with `let result = entry.file_type();`',
+                         cond2, cond2, [], 'the body of the gate (recursion / queueing)')
+    return dict(functions=[r, r2], dropped=[d, d2])
+
+
+def _unit_gate_exit(inj, scratch, which):
+    _gates_begin(inj)
+    s, it, span = _visit_dir(scratch)
+    if which == 'dir':
+        cond = _first_stmt_if_break(s, r'for\s+entry\s+in\s+entry_list\s*\{', span, 'visit_dir: for entry in entry_list')
+        anchor = 'first statement `if .. { break; }` of `for entry in entry_list`'
+    else:
+        cond = _first_stmt_if_break(s, r'for\s+i\s+in\s+0\.\.archive\.len\(\)\s*\{', span, 'visit_dir: for i in 0..archive.len()')
+        anchor = 'first statement `if .. { break; }` of `for i in 0..archive.len()`'
+    g, ren = _gate_rename(cond)
+    text = f'''pub mod gate_exit_{which} {{
+use super::*;
+pub fn frag_exit(p_buffered: bool, p_limit: u32, p_found: u32) -> bool {{ {g} }}
+#[kani::proof]
+fn c06_gate() {{
+    let b: bool = kani::any(); let limit: u32 = kani::any(); let found: u32 = kani::any();
+    kani::cover!(true);
+    assert!(frag_exit(b, limit, found) == (!b && limit > 0 && found >= limit), "OBL C06.gate.{which}");
+}}
+#[kani::proof]
+fn canary_must_fail() {{
+    let f: u32 = kani::any();
+    assert!(frag_exit(false, 5, f), "CANARY must fail");
+}}
+}}
+'''
+    inj.new_file(FRAG_FILE, text)
+    r, d = frag_record(f'gate_exit_{which}::frag_exit', 'src/searcher.rs', 'fn visit_dir / condition of the ' + anchor, cond, g, ren, 'the loop')
+    return dict(functions=[r], dropped=[d])
+
+
+def unit_gate_exit_dir(inj, scratch):
+    return _unit_gate_exit(inj, scratch, 'dir')
+
+
+def unit_gate_exit_archive(inj, scratch):
+    return _unit_gate_exit(inj, scratch, 'archive')
 
 
 # --------------------------------------------------------------------------------------------------
@@ -681,3 +744,132 @@ fn canary_glob_must_fail() {
     inj.new_file(FRAG_FILE, '\n'.join(out) + '\n')
     return dict(functions=recs, dropped=dropped,
                 assumptions=['regex crate: Regex::replace_all with a single-character alternation replaces exactly the listed characters, left to right, and copies all others (T3)'])
+
+
+# --------------------------------------------------------------------------------------------------
+# Criteria: lexicographic comparison, per-key dispatch and direction (C05)
+# --------------------------------------------------------------------------------------------------
+def unit_criteria(inj, scratch):
+    """Criteria::cmp and Criteria::cmp_at: the WHOLE method bodies are copied verbatim into methods of shim
+    types whose fields / helper methods stand for the generic receiver (no identifier renaming at all)."""
+    frag_begin(inj)
+    s = src('src/util/mod.rs', scratch)
+    recs, dropped = [], []
+    impl = s.item('impl', r'Ord\s+for\s+Criteria')
+    it = s.item('fn', 'cmp', (impl['open'], impl['close']))
+    body = dedent(s.text[it['open']:it['end']])
+    r, d = frag_record('FragLex::cmp', 'src/util/mod.rs', 'impl Ord for Criteria / fn cmp (whole body, verbatim, as a method of shim type FragLex)', body, body,
+                       ['receiver type Criteria<T> -> FragLex { values: Vec<u8>, .. } whose cmp_at(other, i) returns a symbolic per-key Ordering'],
+                       'the generic receiver (Rc<Vec<Expr>>, Vec<T>), the real cmp_at (verified separately)')
+    recs.append(r); dropped.append(d)
+    cimpl = s.item('impl', r'Criteria')
+    it2 = s.item('fn', 'cmp_at', (cimpl['open'], cimpl['close']))
+    body2 = dedent(s.text[it2['open']:it2['end']])
+    r, d = frag_record('FragCrit::cmp_at', 'src/util/mod.rs', 'impl Criteria / fn cmp_at (whole body, verbatim, as a method of shim type FragCrit)', body2, body2,
+                       ['receiver type Criteria<T> -> FragCrit { fields: Vec<FragField>, orderings: Vec<bool>, .. } whose cmp_at_numbers / cmp_at_datetimes / '
+                        'cmp_at_direct return symbolic Orderings (reversed when called with swapped receiver/argument)'],
+                       'cmp_at_numbers / cmp_at_datetimes / cmp_at_direct (parse_filesize, parse_datetime, T::cmp), Expr::contains_numeric/datetime')
+    recs.append(r); dropped.append(d)
+    text = f'''pub mod criteria {{
+use super::*;
+use std::cmp::Ordering;
+pub struct FragField {{ pub numeric: bool, pub datetime: bool }}
+impl FragField {{
+    pub fn contains_numeric(&self) -> bool {{ self.numeric }}
+    pub fn contains_datetime(&self) -> bool {{ self.datetime }}
+}}
+pub struct FragCrit {{ pub fields: Vec<FragField>, pub values: Vec<u8>, pub orderings: Vec<bool>, pub is_self: bool,
+                       pub cn: Ordering, pub cd: Ordering, pub cs: Ordering }}
+impl FragCrit {{
+    fn rel(&self, other: &Self, c: Ordering) -> Ordering {{
+        if self.is_self == other.is_self {{ Ordering::Equal }} else if self.is_self {{ c }} else {{ c.reverse() }}
+    }}
+    fn cmp_at_numbers(&self, other: &Self, _i: usize) -> Ordering {{ self.rel(other, self.cn) }}
+    fn cmp_at_datetimes(&self, other: &Self, _i: usize) -> Ordering {{ self.rel(other, self.cd) }}
+    fn cmp_at_direct(&self, other: &Self, _i: usize) -> Ordering {{ self.rel(other, self.cs) }}
+    // ---- verbatim body of Criteria::cmp_at ----
+    pub fn cmp_at(&self, other: &Self, i: usize) -> Ordering {body2}
+}}
+pub struct FragLex {{ pub values: Vec<u8>, pub ords: [Ordering; 3], pub is_self: bool }}
+impl FragLex {{
+    fn cmp_at(&self, other: &Self, i: usize) -> Ordering {{
+        if self.is_self == other.is_self {{ Ordering::Equal }} else if self.is_self {{ self.ords[i] }} else {{ self.ords[i].reverse() }}
+    }}
+    // ---- verbatim body of <Criteria as Ord>::cmp ----
+    pub fn cmp(&self, other: &Self) -> Ordering {body}
+}}
+{H('frag_criteria.kani.rs')}
+}}
+'''
+    inj.new_file(FRAG_FILE, text)
+    return dict(functions=recs, dropped=dropped)
+
+
+def unit_orderby_arms(inj, scratch):
+    """positional key arm and DESC arm of parse_order_by"""
+    frag_begin(inj)
+    s = src('src/parser.rs', scratch)
+    it = s.fn('parse_order_by', impl='Parser')
+    span = s.body_span(it)
+    mm = s.find_one(r'match\s+ordering_field\.parse::<usize>\(\)\s*\{', span, what='parse_order_by: match ordering_field.parse::<usize>() {')
+    o = mm.end() - 1
+    c = s.match_close(o)
+    am = re.search(r'Ok\((\w+)\)\s*=>', s.mask[o:c])
+    if not am:
+        raise AnchorLost('parse_order_by: Ok(idx) arm not found')
+    binder = am.group(1)
+    a, b0, b1 = s.arm(r'Ok\(' + binder + r'\)', (o, c), what='parse_order_by: Ok(idx) arm')
+    arm = dedent(s.text[b0:b1])
+    if 'self.' in arm:
+        raise AnchorLost('parse_order_by: positional arm uses parser state')
+    a2, d0, d1 = s.arm(r'Some\(Lexem::DescendingOrder\)', span, what='parse_order_by: Some(Lexem::DescendingOrder) arm')
+    darm = dedent(s.text[d0:d1])
+    if 'self.' in darm:
+        raise AnchorLost('parse_order_by: DESC arm uses parser state')
+    text = f'''pub mod orderby {{
+use super::*;
+pub fn frag_positional<T: Clone>(fields: &[T], {binder}: usize) -> Result<T, String> {{
+    let actual_field = {arm};
+    Ok(actual_field)
+}}
+pub fn frag_desc(order_by_directions: &mut Vec<bool>) -> Result<(), String> {{
+    {darm}
+    Ok(())
+}}
+{H('frag_orderby.kani.rs')}
+}}
+'''
+    inj.new_file(FRAG_FILE, text)
+    r1, d1_ = frag_record('frag_positional', 'src/parser.rs', 'fn parse_order_by / arm `Ok(idx) => ..` of `match ordering_field.parse::<usize>()`',
+                          arm, arm, ['element type Expr -> generic T: Clone (instantiated with u8)'], 'token handling; Expr::clone')
+    r2, d2_ = frag_record('frag_desc', 'src/parser.rs', 'fn parse_order_by / arm `Some(Lexem::DescendingOrder) => ..`', darm, darm, [], 'token handling')
+    return dict(functions=[r1, r2], dropped=[d1_, d2_])
+
+
+def unit_fieldclass(inj, scratch):
+    rel = 'src/field.rs'
+    s = src(rel, scratch)
+    it = s.item('enum', 'Field')
+    body = s.mask[it['open'] + 1:it['close']]
+    # variants without cfg gates that need features
+    variants = []
+    pending_cfg = False
+    for ln in body.split('\n'):
+        t = ln.strip()
+        if t.startswith('#[cfg'):
+            pending_cfg = True
+            continue
+        m = re.match(r'(\w+),?$', t)
+        if m:
+            if not pending_cfg:
+                variants.append(m.group(1))
+            pending_cfg = False
+    if len(variants) < 50:
+        raise AnchorLost('enum Field: could not enumerate variants')
+    arms = ' '.join(f'{i} => Field::{v},' for i, v in enumerate(variants[:-1]))
+    gen = (f'    pub const N_FIELDS: u8 = {len(variants)};\n'
+           f'    pub fn field_at(k: u8) -> Field {{ match k {{ {arms} _ => Field::{variants[-1]} }} }}\n')
+    inj.append(rel, H('field.kani.rs').replace('/*GENERATED_FIELD_TABLE*/', gen))
+    return dict(functions=[fn_record(s, 'is_numeric_field', 'K', impl='Field', how='whole function; postcondition asserted in an appended harness over every enum variant'),
+                           fn_record(s, 'is_datetime_field', 'K', impl='Field', how='whole function; postcondition asserted in an appended harness over every enum variant')],
+                dropped=['cfg-gated variants User/Group (text columns) are not enumerated'])
